@@ -1,25 +1,32 @@
 // extract: regenerates Lean data files from the *current* /repo working tree.
-// Stdlib only (go/ast, go/parser, go/printer). Usage: extract <cmd> <repo> <outdir>
+// Stdlib only (go/ast, go/parser, go/printer). Usage: extract <cmd> <repo> <out.lean>
+// Each subcommand lives in its own file and registers itself in `commands` from init().
 package main
 
 import (
 	"fmt"
 	"os"
+	"sort"
 )
+
+var commands = map[string]func(repo, out string) error{}
 
 func main() {
 	if len(os.Args) < 4 {
-		fmt.Fprintln(os.Stderr, "usage: extract <smtplits|...> <repo> <out.lean>")
+		var names []string
+		for n := range commands {
+			names = append(names, n)
+		}
+		sort.Strings(names)
+		fmt.Fprintln(os.Stderr, "usage: extract <cmd> <repo> <out.lean>; commands:", names)
 		os.Exit(2)
 	}
-	var err error
-	switch os.Args[1] {
-	case "smtplits":
-		err = smtpLits(os.Args[2], os.Args[3])
-	default:
-		err = fmt.Errorf("unknown command %q", os.Args[1])
+	f, ok := commands[os.Args[1]]
+	if !ok {
+		fmt.Fprintf(os.Stderr, "extract: unknown command %q\n", os.Args[1])
+		os.Exit(2)
 	}
-	if err != nil {
+	if err := f(os.Args[2], os.Args[3]); err != nil {
 		fmt.Fprintln(os.Stderr, "extract:", err)
 		os.Exit(1)
 	}
